@@ -13,11 +13,37 @@ use crate::platform::{
     IoUringParamFlags, IoUringParams, IoUringSubmissionQueueEntry, MapAdditionalFlags,
     MapRequiredFlag, MemoryProtection, UringCompletionQueue, UringSubmissionQueue,
 };
-use crate::unistd::mmap;
+use crate::unistd::{mmap, munmap};
 use crate::{Error, Result};
 
 #[cfg(test)]
 mod test;
+
+/// Releases what `setup_io_uring` has acquired so far if it bails out before the `IoUring`
+/// (which then owns the descriptor and the mappings) exists.
+struct SetupGuard {
+    fd: Fd,
+    mappings: [(usize, usize); 3],
+    num_mappings: usize,
+}
+
+impl SetupGuard {
+    fn mapped(&mut self, addr: usize, len: usize) {
+        self.mappings[self.num_mappings] = (addr, len);
+        self.num_mappings += 1;
+    }
+}
+
+impl Drop for SetupGuard {
+    fn drop(&mut self) {
+        for (addr, len) in &self.mappings[..self.num_mappings] {
+            if let Some(len) = NonZeroUsize::new(*len) {
+                let _ = unsafe { munmap(*addr, len) };
+            }
+        }
+        let _ = crate::unistd::close(self.fd);
+    }
+}
 
 /// Creates an `IoUring` instance with shared memory between user and kernel space.  
 /// `entries` are the number of available slots in the submission queue,  
@@ -34,6 +60,11 @@ pub fn setup_io_uring(
 ) -> Result<IoUring> {
     let mut params = IoUringParams::new(flags, sq_thread_cpu, sq_thread_idle);
     let fd = io_uring_setup(entries, &mut params)?;
+    let mut guard = SetupGuard {
+        fd,
+        mappings: [(0, 0); 3],
+        num_mappings: 0,
+    };
     let mut cq_size = core::mem::size_of::<IoUringCompletionQueueEntry>();
     if flags.contains(IoUringParamFlags::IORING_SETUP_CQE32) {
         cq_size += core::mem::size_of::<IoUringCompletionQueueEntry>();
@@ -60,10 +91,11 @@ pub fn setup_io_uring(
             Some(fd),
             i64::from(IORING_OFF_SQ_RING),
         )?;
+        guard.mapped(sq_ring_ptr, sq_ring_sz);
         let cq_ring_ptr =
             if params.0.features & IoUringFeatFlags::IORING_FEAT_SINGLE_MMAP.bits() == 0 {
                 // cq offset from https://kernel.dk/io_uring.pdf
-                mmap(
+                let cq_ring_ptr = mmap(
                     None,
                     // Safety: The kernel rejects 0 entries as `EINVAL` and the size isn't 0
                     NonZeroUsize::new_unchecked(cq_ring_sz),
@@ -72,7 +104,9 @@ pub fn setup_io_uring(
                     MapAdditionalFlags::MAP_POPULATE,
                     Some(fd),
                     i64::from(IORING_OFF_CQ_RING),
-                )?
+                )?;
+                guard.mapped(cq_ring_ptr, cq_ring_sz);
+                cq_ring_ptr
             } else {
                 sq_ring_ptr
             };
@@ -97,6 +131,7 @@ pub fn setup_io_uring(
             Some(fd),
             i64::from(IORING_OFF_SQES),
         )?;
+        guard.mapped(sqes, sqe_size * params.0.sq_entries as usize);
         let sqes = NonNull::new_unchecked(sqes as *mut IoUringSubmissionQueueEntry);
         let cq_khead = into_non_null(cq_ring_ptr, params.0.cq_off.head as usize)?;
         let cq_ktail = into_non_null(cq_ring_ptr, params.0.cq_off.tail as usize)?;
@@ -115,6 +150,8 @@ pub fn setup_io_uring(
         for index in 0..sq_ring_entries {
             (*sq_array.as_ptr().add(index as usize)).store(index, Ordering::Release);
         }
+        // The `IoUring` owns the descriptor and the mappings from here on
+        core::mem::forget(guard);
         // Safety: All pointers are guaranteed to not be a null-pointer,
         // we get them from a successful `mmap`
         Ok(IoUring {
